@@ -45,7 +45,7 @@ CHECKS.update({
             " Line-level part (engine L): two overlapping calls on one instance with ONE pre-emption placed at every source line of the package (thorough tier: every bytecode); each call's result must be what a sequential run gives.",
             S_NOTE, "bounded-exhaustive input enumeration + explicit-state model checking (one-instance histories)", "4/C02"),
     "C03": ("S", "model_checking",
-            "BFS to closure over store/tag/delete/delete_if_invalid on pids p/q, contents A/B, cids cA/cB/never-stored; "
+            "BFS to closure over store/tag/delete/delete_if_invalid (and metadata calls) on pids p/q/r, contents A/B, cids cA/cB/never-stored; "
             "every transition checked against the reference model; rejected re-binding must leave all reference files "
             "byte-identical; every pid probed through retrieve_object after every call.", S_NOTE,
             "explicit-state model checking of the implementation (BFS to fixpoint, reference-model oracle)", "4/C03"),
@@ -116,10 +116,11 @@ CHECKS.update({
             T_NOTE + " Process death = completed system calls are durable, user-space buffers are not.",
             "stateless model checking with a per-step observer + exhaustive crash-point enumeration", "4/C09"),
     "C10": ("F", "model_checking",
-            "For 24 (call, starting state) cases the kernel-visible tree before every file-system operation and after the "
+            "For 37 (call, starting state) cases the kernel-visible tree before every file-system operation and after the "
             "last is captured; every distinct crash image is re-opened by a fresh FileHashStore: bystanders' bytes, "
             "references and metadata must be as before, the interrupted pid is served exact bytes or a not-found / "
-            "inconsistency class, delete_object then store_object must succeed, I9 must hold. The images that FOLLOW every "
+            "inconsistency class, delete_object then store_object must succeed (also after the other pids were deleted first, and with "
+            "other content), the pid's metadata can be deleted, stored and read back in both orders, I9 must hold. The images that FOLLOW every "
             "fault site of each call (one-off and persistent EIO) are crash images too; four cases run on a depth-1/width-1 "
             "store whose bystander shares the shard directory; images while two calls are in flight come from engine T. "
             "Known findings C10-F1 / C10-F2 are listed by exact instance.",
@@ -172,7 +173,8 @@ CHECKS.update({
             "bounded-exhaustive enumeration of configuration pairs against an independent oracle", "4/C14"),
     "C15": ("E", "exploration",
             "120 stores (depth 1-6 x width 1-4 x 5 algorithms); after a fixed script the ENTIRE tree (paths and bytes) is "
-            "compared with the tree predicted by an independent implementation of the README layout; hashstore.yaml is "
+            "compared with the tree predicted by an independent implementation of the README layout (identifiers include path-like, "
+            "very long non-ASCII and non-NFC strings); hashstore.yaml is "
             "parsed and must carry the documented keys.", E_NOTE,
             "bounded-exhaustive enumeration of configurations with an independent layout oracle", "4/C15"),
     "C17": ("E", "exploration",
